@@ -468,15 +468,23 @@ def revertState (cfg : Cfg) (n ver : Nat) (su : SU) (casm : Map Nat CasmMeta) (s
 
 /-! ### CASM hash metadata -/
 
+/-- every declared Sierra class comes with its Sierra definition in `newClasses` -/
+def declaredDefsOK (b : Block) : Bool :=
+  b.diff.declV1.all (fun e => match Map.get b.classes e.1 with | some cd => cd.sierra | none => false)
+
 def storeCasm (n : Nat) (b : Block) (casm : Map Nat CasmMeta) : Except Err (Map Nat CasmMeta) := do
   if b.ver ≥ 2 then
-    let c1 := Map.setAll casm (b.diff.declV1.map (fun e => (e.1, (⟨n, e.2, 0, none⟩ : CasmMeta))))
-    -- `Migrate`: not declared with V2, not before/at its declaration, not migrated already
-    updAll (fun (md : CasmMeta) (_ : Nat) => md.v1.isNone || decide (n ≤ md.declaredAt) || decide (md.migratedAt > 0))
-      (fun md _ => { md with migratedAt := n }) Err.casm c1 b.diff.migrated
+    -- V2 declarations: the definition must be supplied and be a Sierra class (fecbdb1: before it a
+    -- declaration without definition was stored and overwrote the metadata of a known class)
+    if declaredDefsOK b then
+      let c1 := Map.setAll casm (b.diff.declV1.map (fun e => (e.1, (⟨n, e.2, 0, none⟩ : CasmMeta))))
+      -- `Migrate`: not declared with V2, not before/at its declaration, not migrated already
+      updAll (fun (md : CasmMeta) (_ : Nat) => md.v1.isNone || decide (n ≤ md.declaredAt) || decide (md.migratedAt > 0))
+        (fun md _ => { md with migratedAt := n }) Err.casm c1 b.diff.migrated
+    else throw Err.casm
   else
     -- V1 declarations: the definition must be supplied and be a Sierra class
-    if b.diff.declV1.all (fun e => match Map.get b.classes e.1 with | some cd => cd.sierra | none => false) then
+    if declaredDefsOK b then
       pure (Map.setAll casm (b.diff.declV1.map (fun e =>
         (e.1, (⟨n, ((Map.get b.classes e.1).map (·.v2)).getD 0, 0, some e.2⟩ : CasmMeta)))))
     else throw Err.casm
